@@ -181,6 +181,7 @@ var riskSignature = map[string]string{
 
 	"text-after-html-block-start-on-the-same-line":    "html-block-start-line",
 	"reference-definition-like-line-inside-paragraph": "definition-inside-paragraph",
+	"percent-encoded-delimiter-in-destination":        "percent-encoding-changes-surrounding-syntax",
 
 	"link-text-over-two-lines":            "title-of-unrecognised-link-scanned",
 	"image-inside-link-text":              "title-of-unrecognised-link-scanned",
@@ -298,6 +299,8 @@ var ldBlocksRisky = []tagged{
 	{"<!DOCTYPE x> [a](b)", "text-after-html-block-start-on-the-same-line"},
 	{"> <!-- c --> [a](b)", "text-after-html-block-start-on-the-same-line"},
 	{"para\n[x]: not-a-def", "reference-definition-like-line-inside-paragraph"},
+	{"[a]: x \"[b](c\") \"", "percent-encoded-delimiter-in-destination"},
+	{"[a]: x '[b](c') '", "percent-encoded-delimiter-in-destination"},
 	{"<b>\n[a](b)", ""},
 	{"`unclosed [a](b)", ""},
 	{"`a [b](c)\nd` [e](f)", ""},
@@ -654,7 +657,9 @@ func init() {
 				docs = append(docs, ldDoc{Unhx(h), risk})
 			}
 		} else {
-			docs = fixedDocs()
+			// documents on which the scanner model and the implementation differed in this run (none on an unchanged tree)
+			docs = append(focusDocs(), fixedDocs()...)
+			c.Add("focus documents (model and implementation differ)", len(focusDocs()))
 			for i := 0; i < c.N; i++ {
 				docs = append(docs, genDoc(c))
 			}
@@ -733,6 +738,14 @@ func init() {
 			r := first[i]
 			fail := func(sig, why string) {
 				kind := sig
+				if m := focusModel[d.src]; m != nil {
+					// a document on which the scanner model and the implementation differ: the
+					// failure is reported when the model's own result does not fail alike
+					if msig, _ := evalResult(c, d.src, *m, nil); msig == sig {
+						c.Count("focus documents failing alike with the model's result (not attributed)")
+						return
+					}
+				}
 				if d.risk != "" {
 					// a construct on which the hand-written scanner is known to be able to
 					// disagree with CommonMark: one signature per construct
